@@ -39,6 +39,7 @@ func init() {
 		"c09big":      c09Big,
 		"c13replay":   c13Replay,
 		"c13lookup":   c13Lookup,
+		"c13bind":     c13Bind,
 	}})
 }
 
